@@ -118,6 +118,12 @@ class Negotiated:
         )
 
         self.local_as = self.sent_open.asn
+        if self.sent_open.asn == AS_TRANS:
+            # the OPEN carries AS_TRANS in its 2-octet field for a 4-byte AS (RFC 6793):
+            # our true AS is in the capability we sent
+            sent_asn4 = sent_capa.get(Capability.CODE.FOUR_BYTES_ASN, None)
+            if isinstance(sent_asn4, ASN):
+                self.local_as = sent_asn4
         self.peer_as = self.received_open.asn
         if self.received_open.asn == AS_TRANS and self.asn4:
             asn4_capa = recv_capa.get(Capability.CODE.FOUR_BYTES_ASN, None)
